@@ -136,6 +136,13 @@ def expected (R : Regex) (sh : GoVal → Bytes) (d : Dump) (o : Opts) : Option (
 def IsCell (d : Dump) (db tbl : Bytes) (i : Nat) (col : Bytes) (v : GoVal) (row : Row) : Prop :=
   ∃ D ∈ d, D.name = db ∧ ∃ t ∈ D.tables, t.name = tbl ∧ t.rows[i]? = some row ∧ (col, v) ∈ row
 
+/-- every matching binding of every row, enumerated in the order in which the rows STORE their bindings
+(no column order involved): the plain reading of "the cells whose value matches" -/
+def matchingCells (re : Bytes → Bool) (sh : GoVal → Bytes) (incl : Bool) (d : Dump) : List Hit :=
+  d.flatMap fun D => D.tables.flatMap fun t => t.rows.zipIdx.flatMap fun ri =>
+    (ri.1.filter fun cv => cellMatches re sh cv.2).map fun cv =>
+      ({ db := D.name, table := t.name, row := ri.2, col := cv.1, value := cv.2, fullRow := if incl then some ri.1 else none } : Hit)
+
 /-! ### substring tests (specification of `bytesContains` / `containsIgnoreCase`) -/
 
 def isPrefix : Bytes → Bytes → Bool
